@@ -1,26 +1,2206 @@
-//! C14: not implemented yet.
+//! C14: match exhaustiveness and reachability are exact; the first matching arm runs.
+//!
+//! Monitor: batches of generated `fn m_i(x: T) -> u64 { match x { p_0 => 0, p_1 => 1, .. } }`
+//! over small finite types (bool; u8/u16/u32/u64 matched with literal and named-constant patterns
+//! from a pool of <= 4 cut points, so that the literals and the gaps between them partition the
+//! value space into <= 9 classes; enums <= 4 variants with and without payload; structs and
+//! tuples of these, depth <= 3; or-patterns, `_`, bindings, struct patterns with `..`, field
+//! shorthand, fields out of order).
+//! Reference: brute force over the class-reduced value space (which values no arm matches, which
+//! arm matches a value first).
+//! Observed: (1) the batch is type checked by the real front end with the harness's own
+//! diagnostics handler: structured `MatchExpressionNonExhaustive { missing_patterns }` errors and
+//! `MatchExpressionUnreachableArm` warnings, attributed to (function, arm) by span line; the
+//! witness text is parsed with a small grammar; (2) the accepted functions are compiled by
+//! forc-pkg to bytecode, debug and release, and run in the FuelVM on class representatives.
+//! Checks: (i) accepted although a value is uncovered, (ii) rejected although every value is
+//! covered, (iii) a reported witness contains a covered value / is not a pattern of the scrutinee
+//! type, (iv) an arm flagged unreachable although a value reaches it first, or not flagged
+//! although none does, (v) the arm that runs is not the first matching one.
 use crate::common::*;
+use crate::engine::*;
 use crate::{Plan, Prop};
+use anyhow::{anyhow, Result};
+use forc_pkg::manifest::GenericManifestFile;
+use forc_pkg::{BuildPlan, BuildProfile, PackageDescriptor, PkgOpts};
+use rand::{rngs::StdRng, Rng};
+use serde_json::{json, Value};
+use std::collections::{BTreeMap, BTreeSet, HashMap};
+use std::panic::AssertUnwindSafe;
+use std::path::{Path, PathBuf};
+use sway_core::{namespace, BuildTarget, DbgGeneration, Engines};
+use sway_error::error::CompileError;
+use sway_error::warning::{CompileWarning, Warning};
+use sway_features::ExperimentalFeatures;
+use sway_types::Spanned;
 
 pub static META: PropertyMeta = PropertyMeta {
     id: "C14",
     level: "exploration",
-    rule: "not implemented",
-    assumptions: &[],
-    floor_evaluations: 1,
-    floor_nontrivial: 2,
-    required_counters: &[],
+    rule: "pattern matrices (1..8 arms) over bool / u8,u16,u32,u64 with <= 4 literal cut points / enums <= 4 variants / structs / tuples, depth <= 3, class-reduced value space <= 1500; patterns: literals, named constants, `_`, bindings, or-patterns (also nested), struct patterns with `..`, shorthand and reordered fields; generation modes: random arms, random arms completed to exhaustive from uncovered values, random arms + catch-all, with duplicated / specialised arms inserted; an evaluation = one matrix whose diagnostics were obtained; non-trivial = >= 2 arms and (rejected with >= 1 validated witness, or accepted and run on values that select >= 2 different arms); distinct = hash of scrutinee type + arms",
+    assumptions: &[
+        "fuel-vm 0.66 is the trusted execution substrate",
+        "all values of one class (a literal, or a maximal gap between the literals used in the match) are matched alike by every pattern; a witness range is compared with the classes it intersects",
+        "diagnostics are attributed by the line of their span: every arm is printed on its own line",
+        "a matrix whose function also got another diagnostic (internal compiler error, ...) is inconclusive",
+        "signatures: a finding on a matrix that has one of the pattern shapes behind the analysis defects recorded in known_findings.d/C14.json carries the name of that shape (see `defect_class`), every other finding carries the hash of the matrix; 60 % of the matrices are generated without these shapes so that they are checked in full",
+    ],
+    floor_evaluations: 200,
+    floor_nontrivial: 60,
+    required_counters: &[
+        "matrices",
+        "expected.exhaustive",
+        "expected.non_exhaustive",
+        "compiler.accepted",
+        "compiler.rejected_non_exhaustive",
+        "unreachable_arms.expected",
+        "unreachable_arms.reported",
+        "arms_reachable_and_not_flagged",
+        "witnesses_validated",
+        "runtime.selections",
+        "runtime.selections.debug",
+        "runtime.selections.release",
+        "scrutinee.bool",
+        "scrutinee.int",
+        "scrutinee.enum",
+        "scrutinee.struct",
+        "scrutinee.tuple",
+        "pattern.or",
+        "pattern.wildcard",
+        "pattern.binding",
+        "pattern.literal",
+        "pattern.constant",
+        "pattern.struct_with_rest",
+        "pattern.enum_variant",
+        "witness.range",
+        "witness.enum",
+        "witness.tuple",
+        "witness.struct",
+    ],
 };
 
 pub static PROP: Prop = Prop {
     meta: &META,
-    plan: |_t| Plan { nshards: 1, budget_s: 1.0, mem_gib: 0 },
-    shard: |_ctx| {
-        let mut r = ShardResult::default();
-        r.harness_fault = Some("not implemented".into());
-        r
-    },
-    replay: crate::no_replay,
+    plan: |t| Plan { nshards: 16, budget_s: t.pick(45.0, 1000.0), mem_gib: 6 },
+    shard,
+    replay,
     extra: crate::no_extra,
-    subcommand: crate::no_subcommand,
+    subcommand,
 };
+
+// ------------------------------------------------------------------------------------------
+// Types, values, patterns
+
+#[derive(Clone, Debug, PartialEq, Eq, Hash)]
+pub enum MT {
+    Bool,
+    Int(u32),
+    Enum(usize),
+    Struct(usize),
+    Tuple(Vec<MT>),
+}
+
+#[derive(Clone, Debug, Default)]
+pub struct Decls {
+    /// variant k of enum i: `Vk` with an optional payload
+    pub enums: Vec<Vec<Option<MT>>>,
+    /// field k of struct i: `fk`
+    pub structs: Vec<Vec<MT>>,
+}
+
+#[derive(Clone, Debug, PartialEq, Eq)]
+pub enum MV {
+    Bool(bool),
+    Int(u64),
+    Enum(usize, Option<Box<MV>>),
+    Struct(Vec<MV>),
+    Tuple(Vec<MV>),
+}
+
+#[derive(Clone, Debug, PartialEq, Eq)]
+pub enum P {
+    Wild,
+    Bind(String),
+    Bool(bool),
+    Lit(u32, u64),
+    Const(u32, u64),
+    Variant(usize, usize, Option<Box<P>>),
+    Tuple(Vec<P>),
+    /// (struct, listed fields in printing order, has `..`)
+    Struct(usize, Vec<(usize, P)>, bool),
+    Or(Vec<P>),
+}
+
+fn int_max(bits: u32) -> u64 {
+    if bits == 64 {
+        u64::MAX
+    } else {
+        (1u64 << bits) - 1
+    }
+}
+
+fn enum_name(i: usize) -> String {
+    format!("En{i}")
+}
+fn struct_name(i: usize) -> String {
+    format!("St{i}")
+}
+
+impl MT {
+    pub fn name(&self) -> String {
+        match self {
+            MT::Bool => "bool".into(),
+            MT::Int(b) => format!("u{b}"),
+            MT::Enum(i) => enum_name(*i),
+            MT::Struct(i) => struct_name(*i),
+            MT::Tuple(ts) => format!("({})", ts.iter().map(|t| t.name()).collect::<Vec<_>>().join(", ")),
+        }
+    }
+    fn depth(&self, d: &Decls) -> usize {
+        match self {
+            MT::Bool | MT::Int(_) => 0,
+            MT::Enum(i) => 1 + d.enums[*i].iter().flatten().map(|t| t.depth(d)).max().unwrap_or(0),
+            MT::Struct(i) => 1 + d.structs[*i].iter().map(|t| t.depth(d)).max().unwrap_or(0),
+            MT::Tuple(ts) => 1 + ts.iter().map(|t| t.depth(d)).max().unwrap_or(0),
+        }
+    }
+    fn shape(&self) -> &'static str {
+        match self {
+            MT::Bool => "bool",
+            MT::Int(_) => "int",
+            MT::Enum(_) => "enum",
+            MT::Struct(_) => "struct",
+            MT::Tuple(_) => "tuple",
+        }
+    }
+    fn collect_bits(&self, d: &Decls, out: &mut BTreeSet<u32>) {
+        match self {
+            MT::Bool => {}
+            MT::Int(b) => {
+                out.insert(*b);
+            }
+            MT::Enum(i) => d.enums[*i].iter().flatten().for_each(|t| t.collect_bits(d, out)),
+            MT::Struct(i) => d.structs[*i].iter().for_each(|t| t.collect_bits(d, out)),
+            MT::Tuple(ts) => ts.iter().for_each(|t| t.collect_bits(d, out)),
+        }
+    }
+}
+
+/// The classes of one match: per integer width the sorted literals used as cut points.
+#[derive(Clone, Debug, Default)]
+pub struct Pools(pub BTreeMap<u32, Vec<u64>>);
+
+impl Pools {
+    /// the classes of width `bits`: inclusive intervals, sorted
+    pub fn classes(&self, bits: u32) -> Vec<(u64, u64)> {
+        let max = int_max(bits);
+        let lits = self.0.get(&bits).cloned().unwrap_or_default();
+        let mut out = vec![];
+        let mut next = 0u64; // first value not yet classified
+        let mut done = false;
+        for l in lits {
+            if done {
+                break;
+            }
+            if l > next {
+                out.push((next, l - 1));
+            }
+            out.push((l, l));
+            if l == max {
+                done = true;
+            } else {
+                next = l + 1;
+            }
+        }
+        if !done {
+            out.push((next, max));
+        }
+        out
+    }
+    pub fn class_of(&self, bits: u32, v: u64) -> (u64, u64) {
+        self.classes(bits).into_iter().find(|(lo, hi)| *lo <= v && v <= *hi).expect("value in a class")
+    }
+}
+
+fn space_size(t: &MT, d: &Decls, pools: &Pools) -> u64 {
+    match t {
+        MT::Bool => 2,
+        MT::Int(b) => pools.classes(*b).len() as u64,
+        MT::Enum(i) => d.enums[*i].iter().map(|p| p.as_ref().map(|t| space_size(t, d, pools)).unwrap_or(1)).fold(0u64, |a, b| a.saturating_add(b)),
+        MT::Struct(i) => d.structs[*i].iter().map(|t| space_size(t, d, pools)).fold(1u64, |a, b| a.saturating_mul(b)),
+        MT::Tuple(ts) => ts.iter().map(|t| space_size(t, d, pools)).fold(1u64, |a, b| a.saturating_mul(b)),
+    }
+}
+
+/// One representative (the lower end) of every class of `t`.
+pub fn values(t: &MT, d: &Decls, pools: &Pools) -> Vec<MV> {
+    fn product(parts: Vec<Vec<MV>>) -> Vec<Vec<MV>> {
+        let mut acc: Vec<Vec<MV>> = vec![vec![]];
+        for p in parts {
+            let mut next = Vec::with_capacity(acc.len() * p.len());
+            for a in &acc {
+                for v in &p {
+                    let mut a2 = a.clone();
+                    a2.push(v.clone());
+                    next.push(a2);
+                }
+            }
+            acc = next;
+        }
+        acc
+    }
+    match t {
+        MT::Bool => vec![MV::Bool(false), MV::Bool(true)],
+        MT::Int(b) => pools.classes(*b).into_iter().map(|(lo, _)| MV::Int(lo)).collect(),
+        MT::Enum(i) => {
+            let mut out = vec![];
+            for (k, p) in d.enums[*i].iter().enumerate() {
+                match p {
+                    None => out.push(MV::Enum(k, None)),
+                    Some(pt) => out.extend(values(pt, d, pools).into_iter().map(|v| MV::Enum(k, Some(Box::new(v))))),
+                }
+            }
+            out
+        }
+        MT::Struct(i) => product(d.structs[*i].iter().map(|t| values(t, d, pools)).collect()).into_iter().map(MV::Struct).collect(),
+        MT::Tuple(ts) => product(ts.iter().map(|t| values(t, d, pools)).collect()).into_iter().map(MV::Tuple).collect(),
+    }
+}
+
+pub fn matches(p: &P, v: &MV) -> bool {
+    match (p, v) {
+        (P::Wild, _) | (P::Bind(_), _) => true,
+        (P::Or(ps), _) => ps.iter().any(|p| matches(p, v)),
+        (P::Bool(a), MV::Bool(b)) => a == b,
+        (P::Lit(_, a), MV::Int(b)) | (P::Const(_, a), MV::Int(b)) => a == b,
+        (P::Variant(_, k, pp), MV::Enum(k2, pv)) => k == k2 && match (pp, pv) {
+            (Some(pp), Some(pv)) => matches(pp, pv),
+            _ => true,
+        },
+        (P::Tuple(ps), MV::Tuple(vs)) => ps.len() == vs.len() && ps.iter().zip(vs).all(|(p, v)| matches(p, v)),
+        (P::Struct(_, fs, _), MV::Struct(vs)) => fs.iter().all(|(k, p)| matches(p, &vs[*k])),
+        _ => panic!("c14: pattern/value shape mismatch {p:?} {v:?}"),
+    }
+}
+
+pub fn first_match(arms: &[P], v: &MV) -> Option<usize> {
+    arms.iter().position(|p| matches(p, v))
+}
+
+pub fn print_pat(p: &P) -> String {
+    match p {
+        P::Wild => "_".into(),
+        P::Bind(n) => n.clone(),
+        P::Bool(b) => b.to_string(),
+        P::Lit(bits, v) => format!("{v}u{bits}"),
+        P::Const(bits, v) => const_name(*bits, *v),
+        P::Variant(e, k, None) => format!("{}::V{k}", enum_name(*e)),
+        P::Variant(e, k, Some(p)) => format!("{}::V{k}({})", enum_name(*e), print_pat(p)),
+        P::Tuple(ps) => format!("({})", ps.iter().map(print_pat).collect::<Vec<_>>().join(", ")),
+        P::Struct(s, fs, rest) => {
+            let mut parts: Vec<String> = fs
+                .iter()
+                .map(|(k, p)| match p {
+                    P::Bind(n) if *n == format!("f{k}") => n.clone(),
+                    _ => format!("f{k}: {}", print_pat(p)),
+                })
+                .collect();
+            if *rest {
+                parts.push("..".into());
+            }
+            format!("{} {{ {} }}", struct_name(*s), parts.join(", "))
+        }
+        P::Or(ps) => ps.iter().map(print_pat).collect::<Vec<_>>().join(" | "),
+    }
+}
+
+fn const_name(bits: u32, v: u64) -> String {
+    format!("C{bits}_{v}")
+}
+
+pub fn print_value(v: &MV, t: &MT, d: &Decls) -> String {
+    match (v, t) {
+        (MV::Bool(b), _) => b.to_string(),
+        (MV::Int(x), MT::Int(bits)) => format!("{x}u{bits}"),
+        (MV::Enum(k, None), MT::Enum(e)) => format!("{}::V{k}", enum_name(*e)),
+        (MV::Enum(k, Some(p)), MT::Enum(e)) => format!("{}::V{k}({})", enum_name(*e), print_value(p, d.enums[*e][*k].as_ref().unwrap(), d)),
+        (MV::Struct(vs), MT::Struct(s)) => format!("{} {{ {} }}", struct_name(*s), vs.iter().enumerate().map(|(k, v)| format!("f{k}: {}", print_value(v, &d.structs[*s][k], d))).collect::<Vec<_>>().join(", ")),
+        (MV::Tuple(vs), MT::Tuple(ts)) => format!("({})", vs.iter().zip(ts).map(|(v, t)| print_value(v, t, d)).collect::<Vec<_>>().join(", ")),
+        _ => panic!("c14: value/type mismatch"),
+    }
+}
+
+// ------------------------------------------------------------------------------------------
+// Generator
+
+#[derive(Clone, Debug)]
+pub struct Matrix {
+    pub ty: MT,
+    pub pools: Pools,
+    pub arms: Vec<P>,
+    pub mode: &'static str,
+    /// generated without the pattern shapes behind the known findings (see `defect_class`)
+    pub clean: bool,
+}
+
+#[derive(Clone, Debug)]
+pub struct Batch {
+    pub decls: Decls,
+    pub fns: Vec<Matrix>,
+}
+
+const SPACE_CAP: u64 = 1500;
+const MIN_BATCHES: u64 = 2;
+
+struct Gen<'a> {
+    rng: &'a mut StdRng,
+    decls: Decls,
+    /// restrict patterns to the shapes without known findings: or-patterns only between
+    /// alternatives of one constructor class, struct patterns listing every field in
+    /// declaration order
+    clean: bool,
+    /// the scrutinee of the matrix being generated has several columns
+    multi: bool,
+}
+
+impl Gen<'_> {
+    fn scalar(&mut self) -> MT {
+        match self.rng.gen_range(0..10) {
+            0..=2 => MT::Bool,
+            3..=5 => MT::Int(8),
+            6 => MT::Int(16),
+            7 => MT::Int(32),
+            _ => MT::Int(64),
+        }
+    }
+    /// a type of depth <= `depth` built from the declarations made so far
+    fn ty(&mut self, depth: usize) -> MT {
+        if depth == 0 || self.rng.gen_bool(0.3) {
+            return self.scalar();
+        }
+        for _ in 0..4 {
+            match self.rng.gen_range(0..3) {
+                0 => {
+                    let c: Vec<usize> = (0..self.decls.enums.len()).filter(|i| MT::Enum(*i).depth(&self.decls) <= depth).collect();
+                    if !c.is_empty() {
+                        return MT::Enum(c[self.rng.gen_range(0..c.len())]);
+                    }
+                }
+                1 => {
+                    let c: Vec<usize> = (0..self.decls.structs.len()).filter(|i| MT::Struct(*i).depth(&self.decls) <= depth).collect();
+                    if !c.is_empty() {
+                        return MT::Struct(c[self.rng.gen_range(0..c.len())]);
+                    }
+                }
+                _ => {
+                    let n = self.rng.gen_range(2..=3);
+                    return MT::Tuple((0..n).map(|_| self.ty(depth - 1)).collect());
+                }
+            }
+        }
+        self.scalar()
+    }
+    fn declare(&mut self) {
+        let n_decls = self.rng.gen_range(3..=5);
+        for j in 0..n_decls {
+            let depth = if j < 2 { 0 } else { self.rng.gen_range(0..=1) };
+            if self.rng.gen_bool(0.6) {
+                let n = self.rng.gen_range(1..=4);
+                let vars = (0..n).map(|_| if self.rng.gen_bool(0.4) { None } else { Some(self.ty(depth)) }).collect();
+                self.decls.enums.push(vars);
+            } else {
+                let n = self.rng.gen_range(1..=3);
+                let fields = (0..n).map(|_| self.ty(depth)).collect();
+                self.decls.structs.push(fields);
+            }
+        }
+        if self.decls.enums.is_empty() {
+            self.decls.enums.push(vec![None, Some(MT::Bool), Some(MT::Int(8))]);
+        }
+        if self.decls.structs.is_empty() {
+            self.decls.structs.push(vec![MT::Bool, MT::Int(8)]);
+        }
+    }
+    fn pool(&mut self, bits: u32) -> Vec<u64> {
+        let max = int_max(bits);
+        let k = match self.rng.gen_range(0..12) {
+            0 => 0,
+            1..=3 => 1,
+            4..=7 => 2,
+            8..=10 => 3,
+            _ => 4,
+        };
+        let mut s = BTreeSet::new();
+        let mut guard = 0;
+        while s.len() < k && guard < 40 {
+            guard += 1;
+            let v = match self.rng.gen_range(0..12) {
+                0 | 1 => 0,
+                2 => 1,
+                3 => 2,
+                4 => 3,
+                5 => 7,
+                6 => max,
+                7 => max - 1,
+                8 => max / 2,
+                9 => max / 2 + 1,
+                10 => self.rng.gen_range(0..=max.min(300)),
+                _ => self.rng.gen_range(0..=max),
+            };
+            s.insert(v);
+            // adjacent cut points leave no gap between them
+            if s.len() < k && self.rng.gen_bool(0.3) && v < max {
+                s.insert(v + 1);
+            }
+        }
+        s.into_iter().collect()
+    }
+    fn pat(&mut self, t: &MT, pools: &Pools, in_or: bool, names: &mut BTreeSet<String>) -> P {
+        self.pat_at(t, pools, in_or, names, false)
+    }
+    fn pat_at(&mut self, t: &MT, pools: &Pools, in_or: bool, names: &mut BTreeSet<String>, top: bool) -> P {
+        let r = self.rng.gen_range(0..100);
+        // catch-alls: rarer as a whole arm and inside or-patterns
+        let (wild, bind) = if top { (4, 7) } else if in_or { (4, 4) } else { (13, 21) };
+        // the clean dialect has no catch-all inside an or-pattern and none inside a pattern of a
+        // scrutinee with several columns
+        let no_catch_all = self.clean && (in_or || (self.multi && !top));
+        if r < wild && !no_catch_all {
+            return P::Wild;
+        }
+        if r < bind && !in_or && !no_catch_all {
+            let n = format!("x{}", names.len());
+            names.insert(n.clone());
+            return P::Bind(n);
+        }
+        if r < 33 && !in_or {
+            let n = self.rng.gen_range(2..=3);
+            if self.clean {
+                // alternatives of one constructor class: the same variant, or literals, or tuples / structs
+                let first = self.ctor_pat(t, pools, true, names);
+                let mut alts = vec![first.clone()];
+                for _ in 1..n {
+                    let mut alt = self.ctor_pat(t, pools, true, names);
+                    for _ in 0..8 {
+                        if head_class(&alt) == head_class(&first) {
+                            break;
+                        }
+                        alt = self.ctor_pat(t, pools, true, names);
+                    }
+                    if head_class(&alt) == head_class(&first) {
+                        alts.push(alt);
+                    }
+                }
+                return or_of(alts);
+            }
+            let alts = (0..n).map(|_| self.pat(t, pools, true, names)).collect();
+            return or_of(alts);
+        }
+        self.ctor_pat(t, pools, in_or, names)
+    }
+    fn ctor_pat(&mut self, t: &MT, pools: &Pools, in_or: bool, names: &mut BTreeSet<String>) -> P {
+        match t {
+            MT::Bool => P::Bool(self.rng.gen()),
+            MT::Int(b) => {
+                let pool = pools.0.get(b).cloned().unwrap_or_default();
+                if pool.is_empty() {
+                    return P::Wild;
+                }
+                let v = pool[self.rng.gen_range(0..pool.len())];
+                if self.rng.gen_bool(0.3) {
+                    P::Const(*b, v)
+                } else {
+                    P::Lit(*b, v)
+                }
+            }
+            MT::Enum(e) => {
+                let k = self.rng.gen_range(0..self.decls.enums[*e].len());
+                match self.decls.enums[*e][k].clone() {
+                    None => P::Variant(*e, k, None),
+                    Some(pt) => P::Variant(*e, k, Some(Box::new(self.pat(&pt, pools, in_or, names)))),
+                }
+            }
+            MT::Tuple(ts) => P::Tuple(ts.iter().map(|t| self.pat(t, pools, in_or, names)).collect()),
+            MT::Struct(s) => {
+                let fts = self.decls.structs[*s].clone();
+                let mut fields = vec![];
+                for (k, ft) in fts.iter().enumerate() {
+                    if self.clean || self.rng.gen_bool(0.7) {
+                        let short = format!("f{k}");
+                        let p = if !in_or && !names.contains(&short) && self.rng.gen_bool(0.15) {
+                            names.insert(short.clone());
+                            P::Bind(short)
+                        } else {
+                            self.pat(ft, pools, in_or, names)
+                        };
+                        fields.push((k, p));
+                    }
+                }
+                let rest = fields.len() < fts.len() || self.rng.gen_bool(0.15);
+                if !self.clean && fields.len() > 1 && self.rng.gen_bool(0.3) {
+                    fields.reverse();
+                }
+                P::Struct(*s, fields, rest)
+            }
+        }
+    }
+    /// a pattern that matches `v`, generalised with probability `q` per node
+    fn pat_for(&mut self, v: &MV, t: &MT, pools: &Pools, q: f64, names: &mut BTreeSet<String>) -> P {
+        let q = if self.clean && self.multi { 0.0 } else { q };
+        if self.rng.gen_bool(q) {
+            if self.rng.gen_bool(0.25) {
+                let n = format!("x{}", names.len());
+                names.insert(n.clone());
+                return P::Bind(n);
+            }
+            return P::Wild;
+        }
+        match (v, t) {
+            (MV::Bool(b), _) => P::Bool(*b),
+            (MV::Int(x), MT::Int(bits)) => {
+                if pools.0.get(bits).map(|p| p.contains(x)).unwrap_or(false) {
+                    if self.rng.gen_bool(0.3) {
+                        P::Const(*bits, *x)
+                    } else {
+                        P::Lit(*bits, *x)
+                    }
+                } else {
+                    // a gap cannot be written as a pattern
+                    P::Wild
+                }
+            }
+            (MV::Enum(k, pv), MT::Enum(e)) => match pv {
+                None => P::Variant(*e, *k, None),
+                Some(pv) => {
+                    let pt = self.decls.enums[*e][*k].clone().unwrap();
+                    P::Variant(*e, *k, Some(Box::new(self.pat_for(pv, &pt, pools, q, names))))
+                }
+            },
+            (MV::Tuple(vs), MT::Tuple(ts)) => P::Tuple(vs.iter().zip(ts).map(|(v, t)| self.pat_for(v, t, pools, q, names)).collect()),
+            (MV::Struct(vs), MT::Struct(s)) => {
+                let fts = self.decls.structs[*s].clone();
+                let mut fields = vec![];
+                let mut rest = false;
+                for (k, v) in vs.iter().enumerate() {
+                    let p = self.pat_for(v, &fts[k], pools, q, names);
+                    if p == P::Wild && !self.clean && self.rng.gen_bool(0.6) {
+                        rest = true;
+                    } else {
+                        fields.push((k, p));
+                    }
+                }
+                P::Struct(*s, fields, rest)
+            }
+            _ => unreachable!(),
+        }
+    }
+    fn matrix(&mut self) -> Matrix {
+        // scrutinee type and cut points, bounded value space
+        self.clean = self.rng.gen_bool(0.6);
+        let (ty, pools) = {
+            let mut found = None;
+            for attempt in 0..30 {
+                let depth = if attempt < 20 { self.rng.gen_range(0..=3) } else { 1 };
+                let ty = self.ty(depth);
+                let mut bits = BTreeSet::new();
+                ty.collect_bits(&self.decls, &mut bits);
+                let mut pools = Pools::default();
+                for b in bits {
+                    let mut p = self.pool(b);
+                    if p.is_empty() && self.clean {
+                        p.push(self.rng.gen_range(0..=int_max(b).min(9)));
+                    }
+                    pools.0.insert(b, p);
+                }
+                if space_size(&ty, &self.decls, &pools) <= SPACE_CAP {
+                    found = Some((ty, pools));
+                    break;
+                }
+            }
+            found.unwrap_or((MT::Bool, Pools::default()))
+        };
+        let vals = values(&ty, &self.decls, &pools);
+        self.multi = multi_column(&ty, &self.decls);
+        let mode = match self.rng.gen_range(0..20) {
+            0..=8 => "random",
+            9..=15 => "completed",
+            _ => "catch_all_last",
+        };
+        let n = self.rng.gen_range(1..=5);
+        let mut arms: Vec<P> = vec![];
+        for _ in 0..n {
+            let mut names = BTreeSet::new();
+            let p = self.pat_at(&ty, &pools, false, &mut names, true);
+            arms.push(p);
+        }
+        // duplicated / specialised arms: unreachable ones
+        if self.rng.gen_bool(0.3) && !arms.is_empty() {
+            let i = self.rng.gen_range(0..arms.len());
+            let covered: Vec<&MV> = vals.iter().filter(|v| matches(&arms[i], v)).collect();
+            let dup = if self.rng.gen_bool(0.5) || covered.is_empty() {
+                arms[i].clone()
+            } else {
+                let v = covered[self.rng.gen_range(0..covered.len())].clone();
+                let mut names = BTreeSet::new();
+                self.pat_for(&v, &ty, &pools, 0.15, &mut names)
+            };
+            let at = self.rng.gen_range(i + 1..=arms.len());
+            arms.insert(at, dup);
+        }
+        match mode {
+            "completed" => {
+                for _ in 0..6 {
+                    let uncovered: Vec<&MV> = vals.iter().filter(|v| first_match(&arms, v).is_none()).collect();
+                    if uncovered.is_empty() {
+                        break;
+                    }
+                    let v = uncovered[self.rng.gen_range(0..uncovered.len())].clone();
+                    let q = [0.2, 0.5, 0.8][self.rng.gen_range(0..3)];
+                    let mut names = BTreeSet::new();
+                    let p = self.pat_for(&v, &ty, &pools, q, &mut names);
+                    arms.push(p);
+                }
+                // leave some of them open: drop one arm that is the only one matching some value
+                if self.rng.gen_bool(0.3) && arms.len() > 1 {
+                    let i = self.rng.gen_range(0..arms.len());
+                    arms.remove(i);
+                }
+                // a last attempt to close the match with a catch-all: sometimes left open
+                if self.rng.gen_bool(0.4) && vals.iter().any(|v| first_match(&arms, v).is_none()) {
+                    arms.push(if self.rng.gen_bool(0.5) { P::Wild } else { P::Bind("rest".into()) });
+                }
+            }
+            "catch_all_last" => {
+                arms.push(if self.rng.gen_bool(0.6) { P::Wild } else { P::Bind("other".into()) });
+                // and sometimes something after it
+                if self.rng.gen_bool(0.25) {
+                    let mut names = BTreeSet::new();
+                    let p = self.pat(&ty, &pools, false, &mut names);
+                    arms.push(p);
+                }
+            }
+            _ => {}
+        }
+        arms.truncate(8);
+        Matrix { ty, pools, arms, mode, clean: self.clean }
+    }
+}
+
+pub fn gen_batch(rng: &mut StdRng, nfns: usize) -> Batch {
+    let mut g = Gen { rng, decls: Decls::default(), clean: false, multi: false };
+    g.declare();
+    let fns = (0..nfns).map(|_| g.matrix()).collect();
+    Batch { decls: g.decls, fns }
+}
+
+// ------------------------------------------------------------------------------------------
+// Source text
+
+pub struct FnLines {
+    pub first: usize,
+    pub last: usize,
+    pub arm_lines: Vec<usize>,
+}
+
+fn collect_consts(p: &P, out: &mut BTreeSet<(u32, u64)>) {
+    match p {
+        P::Const(b, v) => {
+            out.insert((*b, *v));
+        }
+        P::Variant(_, _, Some(p)) => collect_consts(p, out),
+        P::Tuple(ps) | P::Or(ps) => ps.iter().for_each(|p| collect_consts(p, out)),
+        P::Struct(_, fs, _) => fs.iter().for_each(|(_, p)| collect_consts(p, out)),
+        _ => {}
+    }
+}
+
+fn header(b: &Batch, only: Option<&BTreeSet<usize>>) -> String {
+    let mut s = String::from("script;\n\n");
+    for (i, vars) in b.decls.enums.iter().enumerate() {
+        s.push_str(&format!("enum {} {{\n", enum_name(i)));
+        for (k, p) in vars.iter().enumerate() {
+            s.push_str(&format!("    V{k}: {},\n", p.as_ref().map(|t| t.name()).unwrap_or("()".into())));
+        }
+        s.push_str("}\n\n");
+    }
+    for (i, fs) in b.decls.structs.iter().enumerate() {
+        s.push_str(&format!("struct {} {{\n", struct_name(i)));
+        for (k, t) in fs.iter().enumerate() {
+            s.push_str(&format!("    f{k}: {},\n", t.name()));
+        }
+        s.push_str("}\n\n");
+    }
+    let mut consts = BTreeSet::new();
+    for (i, m) in b.fns.iter().enumerate() {
+        if only.map(|o| o.contains(&i)).unwrap_or(true) {
+            m.arms.iter().for_each(|p| collect_consts(p, &mut consts));
+        }
+    }
+    for (bits, v) in consts {
+        s.push_str(&format!("const {}: u{bits} = {v}u{bits};\n", const_name(bits, v)));
+    }
+    s.push('\n');
+    s
+}
+
+fn print_fn(s: &mut String, i: usize, m: &Matrix) -> FnLines {
+    let line = |s: &String| s.matches('\n').count() + 1;
+    let first = line(s);
+    s.push_str(&format!("fn m{i}(x: {}) -> u64 {{\n    match x {{\n", m.ty.name()));
+    let mut arm_lines = vec![];
+    for (k, p) in m.arms.iter().enumerate() {
+        arm_lines.push(line(s));
+        s.push_str(&format!("        {} => {k}u64,\n", print_pat(p)));
+    }
+    s.push_str("    }\n}\n");
+    let last = line(s) - 1;
+    s.push('\n');
+    FnLines { first, last, arm_lines }
+}
+
+/// Phase 1 program: every matrix, nothing is called.
+pub fn diag_source(b: &Batch) -> (String, Vec<FnLines>) {
+    let mut s = header(b, None);
+    let mut lines = vec![];
+    for (i, m) in b.fns.iter().enumerate() {
+        lines.push(print_fn(&mut s, i, m));
+    }
+    s.push_str("fn main() -> u64 {\n    0u64\n}\n");
+    (s, lines)
+}
+
+/// Phase 2 program: the accepted matrices and a `main(sel)` that applies them to the chosen values.
+pub fn run_source(b: &Batch, runs: &[(usize, MV)]) -> String {
+    let only: BTreeSet<usize> = runs.iter().map(|r| r.0).collect();
+    let mut s = header(b, Some(&only));
+    for i in &only {
+        print_fn(&mut s, *i, &b.fns[*i]);
+    }
+    s.push_str("fn main(sel: u64) -> u64 {\n");
+    for (j, (i, v)) in runs.iter().enumerate() {
+        s.push_str(&format!("    if sel == {j}u64 {{\n        return m{i}({});\n    }}\n", print_value(v, &b.fns[*i].ty, &b.decls)));
+    }
+    s.push_str("    424242u64\n}\n");
+    s
+}
+
+// ------------------------------------------------------------------------------------------
+// Witness grammar
+
+#[derive(Clone, Debug, PartialEq)]
+pub enum WP {
+    Wild,
+    Bool(bool),
+    Range(u64, u64),
+    /// MIN / MAX bounds are resolved against the type when checked
+    RangeSym(Option<u64>, Option<u64>),
+    Variant(String, String, Box<WP>),
+    Tuple(Vec<WP>),
+    Struct(String, Vec<(String, WP)>, bool),
+    Or(Vec<WP>),
+}
+
+struct WParser<'a> {
+    s: &'a [u8],
+    i: usize,
+}
+
+impl WParser<'_> {
+    fn ws(&mut self) {
+        while self.i < self.s.len() && self.s[self.i].is_ascii_whitespace() {
+            self.i += 1;
+        }
+    }
+    fn eat(&mut self, t: &str) -> bool {
+        self.ws();
+        if self.s[self.i..].starts_with(t.as_bytes()) {
+            self.i += t.len();
+            true
+        } else {
+            false
+        }
+    }
+    fn expect(&mut self, t: &str) -> Result<(), String> {
+        if self.eat(t) {
+            Ok(())
+        } else {
+            Err(format!("expected `{t}` at {}", self.i))
+        }
+    }
+    fn ident(&mut self) -> Option<String> {
+        self.ws();
+        let st = self.i;
+        while self.i < self.s.len() && (self.s[self.i].is_ascii_alphanumeric() || self.s[self.i] == b'_') {
+            self.i += 1;
+        }
+        if self.i == st {
+            None
+        } else {
+            Some(String::from_utf8_lossy(&self.s[st..self.i]).to_string())
+        }
+    }
+    fn bound(&mut self) -> Result<Option<u64>, String> {
+        let id = self.ident().ok_or("expected a range bound")?;
+        if id == "MIN" || id == "MAX" {
+            Ok(None)
+        } else {
+            id.parse::<u64>().map(Some).map_err(|_| format!("bad range bound `{id}`"))
+        }
+    }
+    fn or(&mut self) -> Result<WP, String> {
+        let mut alts = vec![self.atom()?];
+        while self.eat("|") {
+            alts.push(self.atom()?);
+        }
+        Ok(if alts.len() == 1 { alts.pop().unwrap() } else { WP::Or(alts) })
+    }
+    fn atom(&mut self) -> Result<WP, String> {
+        self.ws();
+        if self.eat("[") {
+            let lo = self.bound()?;
+            self.expect("...")?;
+            let hi = self.bound()?;
+            self.expect("]")?;
+            return Ok(WP::RangeSym(lo, hi));
+        }
+        if self.eat("(") {
+            let mut elems = vec![];
+            if self.eat(")") {
+                return Ok(WP::Tuple(elems));
+            }
+            loop {
+                elems.push(self.or()?);
+                if self.eat(",") {
+                    if self.eat(")") {
+                        break;
+                    }
+                    continue;
+                }
+                self.expect(")")?;
+                break;
+            }
+            return Ok(WP::Tuple(elems));
+        }
+        let id = self.ident().ok_or_else(|| format!("unexpected character at {}", self.i))?;
+        if id == "_" {
+            return Ok(WP::Wild);
+        }
+        if id == "true" {
+            return Ok(WP::Bool(true));
+        }
+        if id == "false" {
+            return Ok(WP::Bool(false));
+        }
+        if id.as_bytes()[0].is_ascii_digit() {
+            let v = id.parse::<u64>().map_err(|_| format!("bad integer `{id}`"))?;
+            return Ok(WP::Range(v, v));
+        }
+        if self.eat("::") {
+            let var = self.ident().ok_or("expected a variant name")?;
+            let inner = if self.eat("(") {
+                if self.eat(")") {
+                    WP::Tuple(vec![])
+                } else {
+                    let p = self.or()?;
+                    self.expect(")")?;
+                    p
+                }
+            } else {
+                WP::Wild
+            };
+            return Ok(WP::Variant(id, var, Box::new(inner)));
+        }
+        if self.eat("{") {
+            let mut fields = vec![];
+            let mut rest = false;
+            loop {
+                if self.eat("}") {
+                    break;
+                }
+                if self.eat("...") || self.eat("..") {
+                    rest = true;
+                    self.expect("}")?;
+                    break;
+                }
+                let f = self.ident().ok_or("expected a field name")?;
+                self.expect(":")?;
+                let p = self.or()?;
+                fields.push((f, p));
+                if !self.eat(",") {
+                    self.expect("}")?;
+                    break;
+                }
+            }
+            return Ok(WP::Struct(id, fields, rest));
+        }
+        Err(format!("identifier `{id}` is not a pattern of the witness grammar"))
+    }
+}
+
+pub fn parse_witness(text: &str) -> Result<WP, String> {
+    let mut p = WParser { s: text.as_bytes(), i: 0 };
+    let w = p.or()?;
+    p.ws();
+    if p.i != p.s.len() {
+        return Err(format!("trailing text at {}", p.i));
+    }
+    Ok(w)
+}
+
+/// The witnesses of a `missing_patterns` text: the parts between back ticks.
+pub fn split_witnesses(missing: &str) -> Vec<String> {
+    missing.split('`').enumerate().filter(|(i, _)| i % 2 == 1).map(|(_, s)| s.to_string()).collect()
+}
+
+/// Does the witness pattern contain a value of the class of `v`? Err = the witness is not a
+/// pattern of type `t`.
+pub fn witness_meets(w: &WP, t: &MT, v: &MV, d: &Decls, pools: &Pools) -> Result<bool, String> {
+    match (w, t, v) {
+        (WP::Wild, _, _) => Ok(true),
+        (WP::Or(ws), _, _) => {
+            let mut any = false;
+            for w in ws {
+                any |= witness_meets(w, t, v, d, pools)?;
+            }
+            Ok(any)
+        }
+        (WP::Bool(a), MT::Bool, MV::Bool(b)) => Ok(a == b),
+        (WP::Range(..) | WP::RangeSym(..), MT::Int(bits), MV::Int(x)) => {
+            let max = int_max(*bits);
+            let (a, b) = match w {
+                WP::Range(a, b) => (*a, *b),
+                WP::RangeSym(a, b) => (a.unwrap_or(0), b.unwrap_or(max)),
+                _ => unreachable!(),
+            };
+            if a > b || b > max {
+                return Err(format!("range [{a}...{b}] is not a range of u{bits}"));
+            }
+            let (lo, hi) = pools.class_of(*bits, *x);
+            Ok(lo <= b && a <= hi)
+        }
+        (WP::Variant(en, vn, inner), MT::Enum(e), MV::Enum(k, pv)) => {
+            if *en != enum_name(*e) {
+                return Err(format!("enum `{en}` where `{}` is matched", enum_name(*e)));
+            }
+            let Some(wk) = vn.strip_prefix('V').and_then(|n| n.parse::<usize>().ok()).filter(|n| *n < d.enums[*e].len()) else {
+                return Err(format!("`{en}` has no variant `{vn}`"));
+            };
+            match &d.enums[*e][wk] {
+                None => {
+                    if !matches!(**inner, WP::Wild) && **inner != WP::Tuple(vec![]) {
+                        return Err(format!("payload pattern for the unit variant `{en}::{vn}`"));
+                    }
+                    Ok(wk == *k)
+                }
+                Some(pt) => {
+                    if wk != *k {
+                        // still type check the payload against some value of the payload type
+                        let any = values(pt, d, pools).into_iter().next().unwrap();
+                        witness_meets(inner, pt, &any, d, pools)?;
+                        return Ok(false);
+                    }
+                    witness_meets(inner, pt, pv.as_ref().unwrap(), d, pools)
+                }
+            }
+        }
+        (WP::Tuple(ws), MT::Tuple(ts), MV::Tuple(vs)) => {
+            if ws.len() != ts.len() {
+                return Err(format!("tuple pattern with {} elements for a tuple of {}", ws.len(), ts.len()));
+            }
+            let mut all = true;
+            for ((w, t), v) in ws.iter().zip(ts).zip(vs) {
+                all &= witness_meets(w, t, v, d, pools)?;
+            }
+            Ok(all)
+        }
+        (WP::Struct(sn, fs, _), MT::Struct(s), MV::Struct(vs)) => {
+            if *sn != struct_name(*s) {
+                return Err(format!("struct `{sn}` where `{}` is matched", struct_name(*s)));
+            }
+            let mut all = true;
+            let mut seen = BTreeSet::new();
+            for (f, w) in fs {
+                let Some(k) = f.strip_prefix('f').and_then(|n| n.parse::<usize>().ok()).filter(|k| *k < vs.len()) else {
+                    return Err(format!("`{sn}` has no field `{f}`"));
+                };
+                if !seen.insert(k) {
+                    return Err(format!("field `{f}` twice"));
+                }
+                all &= witness_meets(w, &d.structs[*s][k], &vs[k], d, pools)?;
+            }
+            Ok(all)
+        }
+        _ => Err(format!("pattern {w:?} is not a pattern of type {}", t.name())),
+    }
+}
+
+fn witness_shapes(w: &WP, out: &mut BTreeSet<&'static str>) {
+    match w {
+        WP::Wild => {
+            out.insert("wildcard");
+        }
+        WP::Bool(_) => {
+            out.insert("bool");
+        }
+        WP::Range(a, b) => {
+            out.insert(if a == b { "integer" } else { "range" });
+        }
+        WP::RangeSym(..) => {
+            out.insert("range");
+        }
+        WP::Variant(_, _, p) => {
+            out.insert("enum");
+            witness_shapes(p, out);
+        }
+        WP::Tuple(ps) => {
+            out.insert("tuple");
+            ps.iter().for_each(|p| witness_shapes(p, out));
+        }
+        WP::Struct(_, fs, rest) => {
+            out.insert("struct");
+            if *rest {
+                out.insert("struct_rest");
+            }
+            fs.iter().for_each(|(_, p)| witness_shapes(p, out));
+        }
+        WP::Or(ps) => {
+            out.insert("or");
+            ps.iter().for_each(|p| witness_shapes(p, out));
+        }
+    }
+}
+
+// ------------------------------------------------------------------------------------------
+// Front end with the harness's own handler (errors AND warnings). This replicates
+// `engine::Amortised::{std_cache, diagnose_dir}`, which keeps only the errors.
+
+pub struct Checker {
+    work: PathBuf,
+    cache: Option<(Engines, namespace::Package)>,
+    compiled: u64,
+    counter: u64,
+}
+
+pub struct Diagnostics {
+    pub errors: Vec<CompileError>,
+    pub warnings: Vec<CompileWarning>,
+}
+
+impl Checker {
+    pub fn new(work: &Path) -> Self {
+        std::fs::create_dir_all(work).ok();
+        Checker { work: work.to_path_buf(), cache: None, compiled: 0, counter: 0 }
+    }
+    fn std(&mut self) -> Result<()> {
+        if self.compiled >= 300 {
+            self.cache = None;
+            self.compiled = 0;
+        }
+        if self.cache.is_some() {
+            return Ok(());
+        }
+        let dir = self.work.join(format!("chk_stdseed_{}", self.counter));
+        self.counter += 1;
+        write_pkg(&dir, "stdseed", "library;\n", true)?;
+        let plan = BuildPlan::from_pkg_opts(&PkgOpts { path: Some(dir.to_string_lossy().to_string()), offline: true, terse: true, ..Default::default() })?;
+        let engines = Engines::default();
+        let graph = plan.graph();
+        let std_node = graph.node_indices().find(|n| graph[*n].name == "std").ok_or_else(|| anyhow!("no std node"))?;
+        let pkg = &graph[std_node];
+        let manifest = &plan.manifest_map()[&pkg.id()];
+        let bp = BuildProfile::debug();
+        let dbg = DbgGeneration::Full;
+        let experimental = ExperimentalFeatures::new(&manifest.project.experimental, &[], &[]).map_err(|e| anyhow!("{e}"))?;
+        let descriptor = PackageDescriptor { name: pkg.name.clone(), target: BuildTarget::Fuel, pinned: pkg.clone(), manifest_file: manifest.clone() };
+        let program_id = engines.se().get_or_create_program_id_from_manifest_path(&manifest.entry_path());
+        let ns = forc_pkg::dependency_namespace(&HashMap::default(), &HashMap::new(), graph, std_node, &engines, None, program_id, experimental, dbg).map_err(|e| anyhow!("std namespace: {:?}", e.first()))?;
+        let mut sm = sway_core::source_map::SourceMap::new();
+        let bp_lib = BuildProfile { include_tests: false, ..bp };
+        let compiled = forc_pkg::compile(&descriptor, &bp_lib, &engines, ns, &mut sm, experimental, dbg)?;
+        let _ = std::fs::remove_dir_all(&dir);
+        self.cache = Some((engines, compiled.namespace));
+        Ok(())
+    }
+    pub fn warm(&mut self) -> Result<()> {
+        self.std()
+    }
+    /// Parse + type check one script (the match analysis runs during type checking).
+    pub fn check(&mut self, src: &str) -> Result<Diagnostics> {
+        self.std()?;
+        self.compiled += 1;
+        let dir = self.work.join(format!("chk{}", self.counter));
+        self.counter += 1;
+        write_pkg(&dir, "c14diag", src, true)?;
+        let r = self.check_dir(&dir);
+        let _ = std::fs::remove_dir_all(&dir);
+        r
+    }
+    /// Full forc-pkg compilation of one script in the debug profile with the cached std (what
+    /// `engine::Amortised::compile` does; done here to avoid a third copy of std per worker).
+    pub fn compile_debug(&mut self, src: &str) -> Result<forc_pkg::CompiledPackage> {
+        self.std()?;
+        self.compiled += 1;
+        let dir = self.work.join(format!("chk{}", self.counter));
+        self.counter += 1;
+        write_pkg(&dir, "c14run", src, true)?;
+        let r = (|| {
+            let (engines, std_ns) = self.cache.as_ref().unwrap();
+            let plan = BuildPlan::from_pkg_opts(&PkgOpts { path: Some(dir.to_string_lossy().to_string()), offline: true, terse: true, ..Default::default() })?;
+            let graph = plan.graph();
+            let std_node = graph.node_indices().find(|n| graph[*n].name == "std").ok_or_else(|| anyhow!("no std node"))?;
+            let node = plan.member_nodes().next().ok_or_else(|| anyhow!("no member"))?;
+            let pkg = &graph[node];
+            let manifest = &plan.manifest_map()[&pkg.id()];
+            let bp = BuildProfile::debug();
+            let dbg = DbgGeneration::Full;
+            let experimental = ExperimentalFeatures::new(&manifest.project.experimental, &[], &[]).map_err(|e| anyhow!("{e}"))?;
+            let descriptor = PackageDescriptor { name: pkg.name.clone(), target: BuildTarget::Fuel, pinned: pkg.clone(), manifest_file: manifest.clone() };
+            let program_id = engines.se().get_or_create_program_id_from_manifest_path(&manifest.entry_path());
+            let mut libs = HashMap::default();
+            libs.insert(std_node, std_ns.clone());
+            let ns = forc_pkg::dependency_namespace(&libs, &HashMap::new(), graph, node, engines, None, program_id, experimental, dbg).map_err(|e| anyhow!("namespace: {:?}", e.first()))?;
+            let mut sm = sway_core::source_map::SourceMap::new();
+            forc_pkg::compile(&descriptor, &bp, engines, ns, &mut sm, experimental, dbg)
+        })();
+        let _ = std::fs::remove_dir_all(&dir);
+        r
+    }
+    /// first error of a rejected program, for the notes
+    pub fn first_error(&mut self, src: &str) -> String {
+        match self.check(src) {
+            Ok(d) => d.errors.first().map(|e| format!("{e} @{}", e.span().start_line_col_one_index().line)).unwrap_or_else(|| "no front end error (rejected by a later stage)".into()),
+            Err(e) => format!("front end failed: {e}"),
+        }
+    }
+    fn check_dir(&mut self, dir: &Path) -> Result<Diagnostics> {
+        let (engines, std_ns) = self.cache.as_ref().unwrap();
+        let plan = BuildPlan::from_pkg_opts(&PkgOpts { path: Some(dir.to_string_lossy().to_string()), offline: true, terse: true, ..Default::default() })?;
+        let graph = plan.graph();
+        let std_node = graph.node_indices().find(|n| graph[*n].name == "std").ok_or_else(|| anyhow!("no std node"))?;
+        let node = plan.member_nodes().next().ok_or_else(|| anyhow!("no member"))?;
+        let pkg = &graph[node];
+        let manifest = &plan.manifest_map()[&pkg.id()];
+        let bp = BuildProfile::debug();
+        let dbg = DbgGeneration::Full;
+        let experimental = ExperimentalFeatures::new(&manifest.project.experimental, &[], &[]).map_err(|e| anyhow!("{e}"))?;
+        let program_id = engines.se().get_or_create_program_id_from_manifest_path(&manifest.entry_path());
+        let mut libs = HashMap::default();
+        libs.insert(std_node, std_ns.clone());
+        let ns = forc_pkg::dependency_namespace(&libs, &HashMap::new(), graph, node, engines, None, program_id, experimental, dbg).map_err(|e| anyhow!("namespace: {:?}", e.first()))?;
+        let cfg = forc_pkg::sway_build_config(manifest.dir(), &manifest.entry_path(), BuildTarget::Fuel, &bp, dbg)?;
+        let handler = sway_error::handler::Handler::default();
+        let source = manifest.entry_string()?;
+        let _ = sway_core::compile_to_ast(&handler, engines, source, ns, Some(&cfg), &pkg.name, None, experimental);
+        let (errors, warnings, _) = handler.consume();
+        Ok(Diagnostics { errors, warnings })
+    }
+}
+
+// ------------------------------------------------------------------------------------------
+// Oracle
+
+/// What the compiler said about one matrix.
+#[derive(Clone, Debug, Default)]
+pub struct FnDiag {
+    /// `missing_patterns` of the non-exhaustive error, if any
+    pub non_exhaustive: Option<String>,
+    /// arms flagged unreachable
+    pub flagged: BTreeSet<usize>,
+    /// any other error inside the function (makes the matrix inconclusive)
+    pub other_errors: Vec<String>,
+}
+
+pub struct Expected {
+    pub vals: Vec<MV>,
+    /// first matching arm of every value
+    pub first: Vec<Option<usize>>,
+    pub uncovered: usize,
+    /// arm i is reached first by some value
+    pub reachable: Vec<bool>,
+}
+
+pub fn expected(m: &Matrix, d: &Decls) -> Expected {
+    let vals = values(&m.ty, d, &m.pools);
+    let first: Vec<Option<usize>> = vals.iter().map(|v| first_match(&m.arms, v)).collect();
+    let uncovered = first.iter().filter(|f| f.is_none()).count();
+    let mut reachable = vec![false; m.arms.len()];
+    for f in first.iter().flatten() {
+        reachable[*f] = true;
+    }
+    Expected { vals, first, uncovered, reachable }
+}
+
+/// The compiler's own notion of an arm that matches everything (`is_catch_all`): used only to
+/// give violations a precise signature, never to excuse one.
+fn is_catch_all(p: &P) -> bool {
+    match p {
+        P::Wild | P::Bind(_) => true,
+        P::Or(ps) => ps.iter().any(is_catch_all),
+        P::Tuple(ps) => ps.iter().all(is_catch_all),
+        P::Struct(_, fs, _) => fs.iter().all(|(_, p)| is_catch_all(p)),
+        _ => false,
+    }
+}
+
+pub fn matrix_text(m: &Matrix) -> String {
+    format!("match x: {} {{ {} }}", m.ty.name(), m.arms.iter().map(print_pat).collect::<Vec<_>>().join(" => .., "))
+}
+
+pub fn matrix_hash(m: &Matrix, d: &Decls) -> u64 {
+    // the declarations reachable from the type matter too
+    let mut s = matrix_text(m);
+    for (i, e) in d.enums.iter().enumerate() {
+        s.push_str(&format!("|E{i}:{}", e.iter().map(|p| p.as_ref().map(|t| t.name()).unwrap_or_default()).collect::<Vec<_>>().join(",")));
+    }
+    for (i, f) in d.structs.iter().enumerate() {
+        s.push_str(&format!("|S{i}:{}", f.iter().map(|t| t.name()).collect::<Vec<_>>().join(",")));
+    }
+    hash64(s.as_bytes())
+}
+
+pub struct Finding {
+    pub kind: String,
+    pub desc: String,
+}
+
+/// A pattern with named constants replaced by their literals (to compare alternatives).
+fn normalised(p: &P) -> P {
+    match p {
+        P::Const(b, v) => P::Lit(*b, *v),
+        P::Bind(_) => P::Wild,
+        P::Variant(e, k, q) => P::Variant(*e, *k, q.as_ref().map(|q| Box::new(normalised(q)))),
+        P::Tuple(ps) => P::Tuple(ps.iter().map(normalised).collect()),
+        P::Or(ps) => P::Or(ps.iter().map(normalised).collect()),
+        P::Struct(s, fs, r) => P::Struct(*s, fs.iter().map(|(k, q)| (*k, normalised(q))).collect(), *r),
+        other => other.clone(),
+    }
+}
+
+/// An or-pattern of the alternatives without repetitions (`3u8 | C8_3`, `true | true`): repeated
+/// alternatives trigger the known internal compiler error "Cannot compile CBR with both branches
+/// going to same dest block" in release builds, which would void the run-time check of the batch.
+fn or_of(alts: Vec<P>) -> P {
+    let mut out: Vec<P> = vec![];
+    for a in alts {
+        if !out.iter().any(|o| normalised(o) == normalised(&a)) {
+            out.push(a);
+        }
+    }
+    if out.len() == 1 {
+        out.pop().unwrap()
+    } else {
+        P::Or(out)
+    }
+}
+
+/// Constructor class of the head of a pattern (all integer literals are one class).
+fn head_class(p: &P) -> u32 {
+    match p {
+        P::Wild | P::Bind(_) => 0,
+        P::Bool(b) => 1 + *b as u32,
+        P::Lit(..) | P::Const(..) => 3,
+        P::Tuple(_) => 4,
+        P::Struct(..) => 5,
+        P::Or(_) => 6,
+        P::Variant(_, k, _) => 10 + *k as u32,
+    }
+}
+
+fn any_node(p: &P, f: &dyn Fn(&P) -> bool) -> bool {
+    if f(p) {
+        return true;
+    }
+    match p {
+        P::Variant(_, _, Some(q)) => any_node(q, f),
+        P::Tuple(ps) | P::Or(ps) => ps.iter().any(|q| any_node(q, f)),
+        P::Struct(_, fs, _) => fs.iter().any(|(_, q)| any_node(q, f)),
+        _ => false,
+    }
+}
+
+/// an or-pattern whose alternatives do not all start with a constructor of one class
+fn has_mixed_or(p: &P) -> bool {
+    any_node(p, &|q| match q {
+        P::Or(alts) => alts.iter().map(head_class).collect::<BTreeSet<_>>().len() > 1,
+        _ => false,
+    })
+}
+
+/// an or-pattern with an alternative that matches everything next to one that does not
+fn has_or_with_irrefutable_alternative(p: &P) -> bool {
+    any_node(p, &|q| match q {
+        P::Or(alts) => alts.iter().any(is_catch_all) && !alts.iter().all(is_catch_all),
+        _ => false,
+    })
+}
+
+/// a struct pattern that does not list every field in declaration order
+fn has_partial_struct_pattern(p: &P, d: &Decls) -> bool {
+    any_node(p, &|q| match q {
+        P::Struct(s, fs, _) => fs.len() != d.structs[*s].len() || fs.iter().enumerate().any(|(i, (k, _))| i != *k),
+        _ => false,
+    })
+}
+
+/// the scrutinee has a tuple or struct with two or more components somewhere
+fn multi_column(t: &MT, d: &Decls) -> bool {
+    match t {
+        MT::Bool | MT::Int(_) => false,
+        MT::Enum(e) => d.enums[*e].iter().flatten().any(|t| multi_column(t, d)),
+        MT::Struct(s) => d.structs[*s].len() >= 2 || d.structs[*s].iter().any(|t| multi_column(t, d)),
+        MT::Tuple(ts) => ts.len() >= 2 || ts.iter().any(|t| multi_column(t, d)),
+    }
+}
+
+/// a wildcard or binding below the top of a pattern of a scrutinee with several columns
+fn has_nested_catch_all(p: &P) -> bool {
+    match p {
+        P::Wild | P::Bind(_) => false,
+        _ => any_node(p, &|q| matches!(q, P::Wild | P::Bind(_)) || matches!(q, P::Struct(_, _, true))),
+    }
+}
+
+fn has_or(p: &P) -> bool {
+    any_node(p, &|q| matches!(q, P::Or(_)))
+}
+
+pub const CLASS_WILD_COLUMN: &str = "catch-all-inside-a-pattern-of-a-scrutinee-with-several-columns";
+pub const CLASS_OR_WITNESS: &str = "matrix-with-an-or-pattern";
+pub const CLASS_STRUCT: &str = "struct-pattern-not-listing-every-field-in-declaration-order";
+pub const CLASS_OR: &str = "or-pattern-with-alternatives-of-different-constructors";
+pub const CLASS_WITNESS: &str = "scrutinee-with-several-columns";
+pub const CLASS_OR_RUNTIME: &str = "or-pattern-with-an-irrefutable-alternative";
+pub const CLASS_INTERIOR: &str = "first-interior-catch-all-arm";
+
+/// The pattern shape of the matrix behind a known analysis defect of the unchanged tree, if it
+/// has one. A finding on a matrix of such a shape gets the class in its signature (so that it can
+/// be listed once in known_findings.d); a finding on any other matrix gets the hash of the matrix.
+fn defect_class(m: &Matrix, d: &Decls, witness_finding: bool) -> Option<&'static str> {
+    if m.arms.iter().any(|p| has_partial_struct_pattern(p, d)) {
+        Some(CLASS_STRUCT)
+    } else if m.arms.iter().any(has_mixed_or) {
+        Some(CLASS_OR)
+    } else if multi_column(&m.ty, d) && m.arms.iter().any(has_nested_catch_all) {
+        Some(CLASS_WILD_COLUMN)
+    } else if witness_finding && m.arms.iter().any(has_or) {
+        Some(CLASS_OR_WITNESS)
+    } else if witness_finding && multi_column(&m.ty, d) {
+        Some(CLASS_WITNESS)
+    } else {
+        None
+    }
+}
+
+/// Checks (i)..(iv) of one matrix against the compiler's diagnostics.
+pub fn judge_diagnostics(m: &Matrix, d: &Decls, ex: &Expected, diag: &FnDiag, res: &mut ShardResult) -> Vec<Finding> {
+    let mut out = vec![];
+    let example_uncovered = || ex.vals.iter().zip(&ex.first).find(|(_, f)| f.is_none()).map(|(v, _)| print_value(v, &m.ty, d)).unwrap_or_default();
+    match (&diag.non_exhaustive, ex.uncovered > 0) {
+        (None, true) => out.push(Finding { kind: "accepted-although-a-value-is-uncovered".into(), desc: format!("no arm matches `{}` ({} of {} value classes uncovered) but the match is accepted as exhaustive", example_uncovered(), ex.uncovered, ex.vals.len()) }),
+        (Some(missing), false) => out.push(Finding { kind: "rejected-although-all-values-are-covered".into(), desc: format!("all {} value classes are matched by some arm but the match is rejected as non-exhaustive (missing: {missing})", ex.vals.len()) }),
+        (Some(missing), true) => {
+            // (iii) every witness must consist of uncovered values only
+            let ws = split_witnesses(missing);
+            if ws.is_empty() {
+                out.push(Finding { kind: "no-witness-reported".into(), desc: format!("non-exhaustive error without a witness: `{missing}`") });
+            }
+            for wt in ws {
+                let w = match parse_witness(&wt) {
+                    Ok(w) => w,
+                    Err(e) => {
+                        out.push(Finding { kind: "witness-not-a-pattern".into(), desc: format!("witness `{wt}` is not a pattern ({e}); all witnesses: {missing}") });
+                        continue;
+                    }
+                };
+                let mut met = 0;
+                let mut covered: Option<(String, usize)> = None;
+                let mut ill = None;
+                for (v, f) in ex.vals.iter().zip(&ex.first) {
+                    match witness_meets(&w, &m.ty, v, d, &m.pools) {
+                        Err(e) => {
+                            ill = Some(e);
+                            break;
+                        }
+                        Ok(false) => {}
+                        Ok(true) => {
+                            met += 1;
+                            if let (Some(arm), None) = (f, &covered) {
+                                covered = Some((print_value(v, &m.ty, d), *arm));
+                            }
+                        }
+                    }
+                }
+                if let Some(e) = ill {
+                    out.push(Finding { kind: "witness-is-not-a-pattern-of-the-scrutinee-type".into(), desc: format!("witness `{wt}`: {e}; all witnesses: {missing}") });
+                } else if met == 0 {
+                    out.push(Finding { kind: "witness-matches-no-value".into(), desc: format!("witness `{wt}` matches no value of the type; all witnesses: {missing}") });
+                } else if let Some((v, arm)) = covered {
+                    out.push(Finding { kind: "witness-is-covered".into(), desc: format!("witness `{wt}` contains `{v}`, which arm {arm} `{}` matches; all witnesses: {missing}", print_pat(&m.arms[arm])) });
+                } else {
+                    res.count("witnesses_validated");
+                    let mut shapes = BTreeSet::new();
+                    witness_shapes(&w, &mut shapes);
+                    for s in shapes {
+                        res.count(&format!("witness.{s}"));
+                    }
+                }
+            }
+        }
+        (None, false) => {}
+    }
+    // (iv) reachability
+    for (i, p) in m.arms.iter().enumerate() {
+        let flagged = diag.flagged.contains(&i);
+        match (ex.reachable[i], flagged) {
+            (true, false) => res.count("arms_reachable_and_not_flagged"),
+            (false, true) => res.count("arms_unreachable_and_flagged"),
+            (true, true) => {
+                let v = ex.vals.iter().zip(&ex.first).find(|(_, f)| **f == Some(i)).map(|(v, _)| print_value(v, &m.ty, d)).unwrap_or_default();
+                out.push(Finding { kind: "reachable-arm-flagged-unreachable".into(), desc: format!("arm {i} `{}` is flagged unreachable but `{v}` reaches it first", print_pat(p)) });
+            }
+            (false, false) => {
+                // signature detail: the compiler deliberately skips the first interior catch-all arm
+                let interior = i + 1 < m.arms.len() && is_catch_all(p) && !m.arms[..i].iter().any(is_catch_all);
+                let kind = if interior { format!("unreachable-arm-not-flagged:{CLASS_INTERIOR}") } else { "unreachable-arm-not-flagged".to_string() };
+                out.push(Finding { kind, desc: format!("arm {i} `{}` matches no value left by the earlier arms but is not flagged unreachable", print_pat(p)) });
+            }
+        }
+    }
+    out
+}
+
+fn pattern_counters(p: &P, res: &mut ShardResult, nested_in_or: bool) {
+    match p {
+        P::Wild => res.count("pattern.wildcard"),
+        P::Bind(_) => res.count("pattern.binding"),
+        P::Bool(_) => res.count("pattern.bool_literal"),
+        P::Lit(..) => res.count("pattern.literal"),
+        P::Const(..) => res.count("pattern.constant"),
+        P::Variant(_, _, p) => {
+            res.count("pattern.enum_variant");
+            if let Some(p) = p {
+                pattern_counters(p, res, nested_in_or);
+            }
+        }
+        P::Tuple(ps) => {
+            res.count("pattern.tuple");
+            ps.iter().for_each(|p| pattern_counters(p, res, nested_in_or));
+        }
+        P::Struct(_, fs, rest) => {
+            res.count(if *rest { "pattern.struct_with_rest" } else { "pattern.struct_all_fields" });
+            fs.iter().for_each(|(_, p)| pattern_counters(p, res, nested_in_or));
+        }
+        P::Or(ps) => {
+            res.count("pattern.or");
+            ps.iter().for_each(|p| pattern_counters(p, res, true));
+        }
+    }
+}
+
+fn or_is_nested(p: &P, top: bool) -> bool {
+    match p {
+        P::Or(ps) => !top || ps.iter().any(|p| or_is_nested(p, false)),
+        P::Variant(_, _, Some(p)) => or_is_nested(p, false),
+        P::Tuple(ps) => ps.iter().any(|p| or_is_nested(p, false)),
+        P::Struct(_, fs, _) => fs.iter().any(|(_, p)| or_is_nested(p, false)),
+        _ => false,
+    }
+}
+
+/// Representatives to run: every class value (or a sample), with gap classes represented by a
+/// random end of the gap.
+fn runtime_values(m: &Matrix, ex: &Expected, rng: &mut StdRng, cap: usize, decls: &Decls) -> Vec<(MV, usize)> {
+    let mut idx: Vec<usize> = vec![];
+    // one value per reachable arm first
+    for a in 0..m.arms.len() {
+        if let Some(i) = ex.first.iter().position(|f| *f == Some(a)) {
+            idx.push(i);
+        }
+    }
+    let mut rest: Vec<usize> = (0..ex.vals.len()).filter(|i| ex.first[*i].is_some() && !idx.contains(i)).collect();
+    while idx.len() < cap && !rest.is_empty() {
+        let j = rng.gen_range(0..rest.len());
+        idx.push(rest.swap_remove(j));
+    }
+    fn vary(v: &MV, t: &MT, d_pools: &Pools, rng: &mut StdRng, decls: &Decls) -> MV {
+        match (v, t) {
+            (MV::Int(x), MT::Int(bits)) => {
+                let (lo, hi) = d_pools.class_of(*bits, *x);
+                MV::Int(match rng.gen_range(0..3) {
+                    0 => lo,
+                    1 => hi,
+                    _ => rng.gen_range(lo..=hi),
+                })
+            }
+            (MV::Enum(k, Some(p)), MT::Enum(e)) => MV::Enum(*k, Some(Box::new(vary(p, decls.enums[*e][*k].as_ref().unwrap(), d_pools, rng, decls)))),
+            (MV::Struct(vs), MT::Struct(s)) => MV::Struct(vs.iter().enumerate().map(|(k, v)| vary(v, &decls.structs[*s][k], d_pools, rng, decls)).collect()),
+            (MV::Tuple(vs), MT::Tuple(ts)) => MV::Tuple(vs.iter().zip(ts).map(|(v, t)| vary(v, t, d_pools, rng, decls)).collect()),
+            _ => v.clone(),
+        }
+    }
+    idx.into_iter().map(|i| (vary(&ex.vals[i], &m.ty, &m.pools, rng, decls), ex.first[i].unwrap())).collect()
+}
+
+// ------------------------------------------------------------------------------------------
+// One batch
+
+pub struct Engines2 {
+    pub checker: Checker,
+    pub am: Amortised,
+    /// a second pair of compiler instances with a short history: a finding that is not one of the
+    /// known classes is only reported when it shows on these too (the main instances are reused
+    /// for hundreds of packages, which forc never does)
+    fresh: Option<(Checker, Amortised)>,
+    fresh_uses: u32,
+    work: PathBuf,
+}
+
+impl Engines2 {
+    pub fn new(work: &Path) -> Self {
+        Engines2 { checker: Checker::new(&work.join("chk")), am: Amortised::new(work), fresh: None, fresh_uses: 0, work: work.to_path_buf() }
+    }
+    fn fresh(&mut self) -> &mut (Checker, Amortised) {
+        if self.fresh.is_none() || self.fresh_uses >= 25 {
+            let w = self.work.join("confirm");
+            clean_dir(&w);
+            self.fresh = Some((Checker::new(&w.join("chk")), Amortised::new(&w)));
+            self.fresh_uses = 0;
+        }
+        self.fresh_uses += 1;
+        self.fresh.as_mut().unwrap()
+    }
+}
+
+/// Does a fresh compiler instance show a finding of `kind` for matrix `i` alone? None = could not be decided.
+fn confirm_diag(eng: &mut Engines2, b: &Batch, i: usize, kind: &str) -> Option<bool> {
+    let single = Batch { decls: b.decls.clone(), fns: vec![b.fns[i].clone()] };
+    let (src, lines) = diag_source(&single);
+    let (chk, _) = eng.fresh();
+    let diags = catch(AssertUnwindSafe(|| chk.check(&src))).ok()?.ok()?;
+    let fd = attribute(&diags, &lines, 1).ok()?;
+    if !fd[0].other_errors.is_empty() {
+        return None;
+    }
+    let ex = expected(&single.fns[0], &single.decls);
+    let mut scratch = ShardResult::default();
+    Some(judge_diagnostics(&single.fns[0], &single.decls, &ex, &fd[0], &mut scratch).iter().any(|f| f.kind == kind))
+}
+
+/// Does matrix `i` alone, compiled by a fresh compiler instance, select another arm than `want` for `v`?
+fn confirm_run(eng: &mut Engines2, b: &Batch, i: usize, v: &MV, want: usize, profile: Profile) -> Option<bool> {
+    let single = Batch { decls: b.decls.clone(), fns: vec![b.fns[i].clone()] };
+    let src = run_source(&single, &[(0, v.clone())]);
+    let (chk, am) = eng.fresh();
+    let bytecode = catch(AssertUnwindSafe(|| match profile {
+        Profile::Debug => chk.compile_debug(&src).map(|p| p.bytecode.bytes),
+        Profile::Release => am.compile("c14run", &src, profile).map(|c| {
+            let b = c.pkg.bytecode.bytes.clone();
+            am.remove(&c);
+            b
+        }),
+    }))
+    .ok()?
+    .ok()?;
+    let obs = run_script(&bytecode, &0u64.to_be_bytes());
+    let got = match &obs.outcome {
+        Outcome::Return(a) => Some(*a),
+        Outcome::ReturnData(d) if d.len() == 8 => Some(u64::from_be_bytes(d[..].try_into().unwrap())),
+        Outcome::VmError(_) => return None,
+        _ => None,
+    };
+    Some(got != Some(want as u64))
+}
+
+fn attribute(diags: &Diagnostics, lines: &[FnLines], nfns: usize) -> Result<Vec<FnDiag>, String> {
+    let mut out = vec![FnDiag::default(); nfns];
+    let find = |line: usize| lines.iter().position(|l| l.first <= line && line <= l.last);
+    for e in &diags.errors {
+        let line = e.span().start_line_col_one_index().line;
+        let Some(f) = find(line) else {
+            return Err(format!("error outside the match functions at line {line}: {e}"));
+        };
+        match e {
+            CompileError::MatchExpressionNonExhaustive { missing_patterns, .. } => {
+                if out[f].non_exhaustive.is_some() && out[f].non_exhaustive.as_deref() != Some(missing_patterns.as_str()) {
+                    out[f].other_errors.push("two different non-exhaustive errors".into());
+                }
+                out[f].non_exhaustive = Some(missing_patterns.clone());
+            }
+            other => out[f].other_errors.push(format!("{other}")),
+        }
+    }
+    for w in &diags.warnings {
+        if let Warning::MatchExpressionUnreachableArm { unreachable_arm, .. } = &w.warning_content {
+            let line = unreachable_arm.start_line_col_one_index().line;
+            let Some(f) = find(line) else {
+                return Err(format!("unreachable-arm warning outside the match functions at line {line}"));
+            };
+            match lines[f].arm_lines.iter().position(|l| *l == line) {
+                Some(a) => {
+                    out[f].flagged.insert(a);
+                }
+                None => out[f].other_errors.push(format!("unreachable-arm warning at line {line}, which is not an arm")),
+            }
+        }
+    }
+    Ok(out)
+}
+
+pub fn run_batch(eng: &mut Engines2, b: &Batch, rng: &mut StdRng, res: &mut ShardResult, replay: &Value, only_fn: Option<usize>) {
+    let (src, lines) = diag_source(b);
+    let diags = match catch(AssertUnwindSafe(|| eng.checker.check(&src))) {
+        Err((loc, msg)) => {
+            res.count("front_end_panics");
+            res.inconclusive(format!("front end panicked at {loc}: {}", msg.chars().take(120).collect::<String>()));
+            let keep = work_dir("rejected").join(format!("C14_panic_{:016x}.sw", hash64(loc.as_bytes())));
+            if !keep.exists() {
+                let _ = std::fs::write(&keep, format!("// {loc}: {msg}\n{src}"));
+            }
+            // the engines may be in an inconsistent state
+            eng.checker.cache = None;
+            return;
+        }
+        Ok(Err(e)) => {
+            res.count("front_end_failed");
+            res.inconclusive(format!("front end could not be run: {e}"));
+            return;
+        }
+        Ok(Ok(d)) => d,
+    };
+    let fdiags = match attribute(&diags, &lines, b.fns.len()) {
+        Ok(f) => f,
+        Err(e) => {
+            res.count("batches_unattributable");
+            res.inconclusive(format!("batch skipped: {e}"));
+            let keep = work_dir("rejected").join(format!("C14_unattributable_{:016x}.sw", hash64(e.as_bytes()) % 16));
+            if !keep.exists() {
+                let _ = std::fs::write(&keep, format!("// {e}\n{src}"));
+            }
+            return;
+        }
+    };
+    res.count("batches");
+    // per matrix: diagnostics
+    let mut runnable: Vec<usize> = vec![];
+    let mut exps: Vec<Option<Expected>> = vec![];
+    let mut nontrivial_diag: Vec<bool> = vec![false; b.fns.len()];
+    for (i, m) in b.fns.iter().enumerate() {
+        if only_fn.map(|o| o != i).unwrap_or(false) {
+            exps.push(None);
+            continue;
+        }
+        let d = &fdiags[i];
+        if !d.other_errors.is_empty() {
+            res.count("matrices_with_other_errors");
+            let msg = &d.other_errors[0];
+            res.count(&format!("other_error.{}", crate::swrun::bucket(msg)));
+            res.inconclusive(format!("matrix got another diagnostic: {} :: {}", msg.chars().take(120).collect::<String>(), matrix_text(m).chars().take(200).collect::<String>()));
+            let keep = work_dir("rejected").join(format!("C14_other_{}.txt", crate::swrun::bucket(msg).replace([' ', '#'], "_")));
+            if !keep.exists() {
+                let _ = std::fs::write(&keep, format!("{msg}\n{}\n\n{src}", matrix_text(m)));
+            }
+            exps.push(None);
+            continue;
+        }
+        res.evaluations += 1;
+        res.count("matrices");
+        res.count(&format!("mode.{}", m.mode));
+        res.count(if m.clean { "dialect.without_known_defect_shapes" } else { "dialect.all_shapes" });
+        if defect_class(m, &b.decls, false).is_none() {
+            res.count("matrices_fully_checked_i_ii_iv");
+            if defect_class(m, &b.decls, true).is_none() {
+                res.count("matrices_fully_checked_witnesses");
+            }
+        }
+        res.count(&format!("scrutinee.{}", m.ty.shape()));
+        res.count(&format!("scrutinee_depth.{}", m.ty.depth(&b.decls)));
+        res.count(&format!("arms.{}", m.arms.len()));
+        for p in &m.arms {
+            pattern_counters(p, res, false);
+            if or_is_nested(p, true) {
+                res.count("pattern.or_nested");
+            }
+        }
+        let ex = expected(m, &b.decls);
+        res.max("max_value_classes", ex.vals.len() as u64);
+        res.add("value_classes_enumerated", ex.vals.len() as u64);
+        res.count(if ex.uncovered > 0 { "expected.non_exhaustive" } else { "expected.exhaustive" });
+        res.count(if d.non_exhaustive.is_some() { "compiler.rejected_non_exhaustive" } else { "compiler.accepted" });
+        res.add("unreachable_arms.expected", ex.reachable.iter().filter(|r| !**r).count() as u64);
+        res.add("unreachable_arms.reported", d.flagged.len() as u64);
+        let before = res.counters.get("witnesses_validated").copied().unwrap_or(0);
+        let findings = judge_diagnostics(m, &b.decls, &ex, d, res);
+        if m.arms.len() >= 2 && res.counters.get("witnesses_validated").copied().unwrap_or(0) > before {
+            nontrivial_diag[i] = true;
+        }
+        let mut kinds_of_this_matrix = BTreeSet::new();
+        for f in findings {
+            // one report per (matrix, kind); a finding of a known-defect class is reported once
+            // per shard and counted afterwards, so that the per-shard cap on violations is left to
+            // findings that are not listed
+            if !kinds_of_this_matrix.insert(f.kind.clone()) {
+                continue;
+            }
+            let mut r = replay.clone();
+            r["fn"] = json!(i);
+            r["matrix"] = json!(matrix_text(m));
+            let sig = if f.kind.contains(':') {
+                f.kind.clone()
+            } else {
+                match defect_class(m, &b.decls, f.kind.starts_with("witness") || f.kind == "no-witness-reported") {
+                    Some(c) => format!("{}:{c}", f.kind),
+                    None => format!("{}:{:016x}", f.kind, matrix_hash(m, &b.decls)),
+                }
+            };
+            let is_class = !sig.rsplit(':').next().map(|h| h.len() == 16 && h.chars().all(|c| c.is_ascii_hexdigit())).unwrap_or(false);
+            let key = format!("finding.{}", if is_class { sig.as_str() } else { f.kind.as_str() });
+            let seen_before = res.counters.contains_key(&key);
+            res.count(&key);
+            if is_class && seen_before {
+                continue;
+            }
+            if !is_class {
+                match confirm_diag(eng, b, i, &f.kind) {
+                    Some(true) => res.count("findings_confirmed_by_fresh_compiler"),
+                    Some(false) => {
+                        res.count("not_reproduced_with_fresh_compiler");
+                        res.inconclusive(format!("finding not reproduced by a fresh compiler instance (artefact of reusing one instance), not reported: {} :: {}", f.desc.chars().take(160).collect::<String>(), matrix_text(m).chars().take(200).collect::<String>()));
+                        continue;
+                    }
+                    None => {
+                        res.count("fresh_compiler_recheck_failed");
+                        res.inconclusive(format!("finding could not be re-checked with a fresh compiler instance, not reported: {}", f.desc.chars().take(160).collect::<String>()));
+                        continue;
+                    }
+                }
+            }
+            res.violation(sig, format!("{} :: {}", f.desc, matrix_text(m)), r);
+        }
+        if d.non_exhaustive.is_none() && ex.uncovered == 0 {
+            runnable.push(i);
+        }
+        if res.samples.len() < 3 && m.arms.len() >= 3 && (d.non_exhaustive.is_some() || !d.flagged.is_empty()) {
+            res.sample(json!({"matrix": matrix_text(m), "compiler_missing_patterns": d.non_exhaustive, "compiler_flagged_unreachable_arms": d.flagged, "brute_force_uncovered_classes": ex.uncovered, "brute_force_reachable": ex.reachable, "value_classes": ex.vals.len()}));
+        }
+        if nontrivial_diag[i] {
+            res.note_nontrivial(matrix_hash(m, &b.decls));
+        }
+        exps.push(Some(ex));
+    }
+    // phase 2: run the accepted matrices
+    if runnable.is_empty() {
+        return;
+    }
+    let mut runs: Vec<(usize, MV)> = vec![];
+    let mut want: Vec<usize> = vec![];
+    for i in &runnable {
+        let ex = exps[*i].as_ref().unwrap();
+        for (v, arm) in runtime_values(&b.fns[*i], ex, rng, 10, &b.decls) {
+            runs.push((*i, v));
+            want.push(arm);
+        }
+    }
+    let rsrc = run_source(b, &runs);
+    for profile in Profile::BOTH {
+        let compiled = catch(AssertUnwindSafe(|| match profile {
+            Profile::Debug => eng.checker.compile_debug(&rsrc).map(|p| p.bytecode.bytes),
+            Profile::Release => eng.am.compile("c14run", &rsrc, profile).map(|c| {
+                let b = c.pkg.bytecode.bytes.clone();
+                eng.am.remove(&c);
+                b
+            }),
+        }));
+        let bytecode = match compiled {
+            Err((loc, msg)) => {
+                res.count("compiler_panics");
+                res.inconclusive(format!("compiler panicked at {loc}: {}", msg.chars().take(120).collect::<String>()));
+                if profile == Profile::Release {
+                    let _ = std::fs::remove_dir_all(eng.am.last_dir());
+                } else {
+                    eng.checker.cache = None;
+                }
+                continue;
+            }
+            Ok(Err(_)) => {
+                res.count("run_program_rejected");
+                if profile == Profile::Release {
+                    let _ = std::fs::remove_dir_all(eng.am.last_dir());
+                }
+                let msg = eng.checker.first_error(&rsrc);
+                res.count(&format!("run_program_rejected.{}", crate::swrun::bucket(&msg)));
+                res.inconclusive(format!("program of accepted matrices rejected ({}): {}", profile.name(), msg.chars().take(160).collect::<String>()));
+                let keep = work_dir("rejected").join(format!("C14_run_{}_{}.sw", profile.name(), crate::swrun::bucket(&msg).replace([' ', '#'], "_")));
+                if !keep.exists() {
+                    let _ = std::fs::write(&keep, format!("// {msg}\n{rsrc}"));
+                }
+                continue;
+            }
+            Ok(Ok(b)) => b,
+        };
+        res.count(&format!("run_programs.{}", profile.name()));
+        let mut arms_seen: BTreeMap<usize, BTreeSet<usize>> = BTreeMap::new();
+        for (j, (i, v)) in runs.iter().enumerate() {
+            let obs = run_script(&bytecode, &(j as u64).to_be_bytes());
+            res.count("runtime.selections");
+            res.count(&format!("runtime.selections.{}", profile.name()));
+            let got = match &obs.outcome {
+                Outcome::Return(a) => Some(*a),
+                Outcome::ReturnData(d) if d.len() == 8 => Some(u64::from_be_bytes(d[..].try_into().unwrap())),
+                Outcome::VmError(e) => {
+                    res.inconclusive(format!("the VM refused the script: {e}"));
+                    continue;
+                }
+                _ => None,
+            };
+            if got == Some(want[j] as u64) {
+                arms_seen.entry(*i).or_default().insert(want[j]);
+                continue;
+            }
+            let m = &b.fns[*i];
+            let mut r = replay.clone();
+            r["fn"] = json!(i);
+            r["matrix"] = json!(matrix_text(m));
+            let known_class = has_or_with_irrefutable_alternative(&m.arms[want[j]]);
+            let class = if known_class { CLASS_OR_RUNTIME.to_string() } else { format!("{:016x}", matrix_hash(m, &b.decls)) };
+            let key = format!("finding.run-time-arm-is-not-the-first-matching-arm{}", if known_class { format!(":{class}") } else { String::new() });
+            let seen_before = res.counters.contains_key(&key);
+            res.count(&key);
+            if known_class && seen_before {
+                continue;
+            }
+            if !known_class {
+                match confirm_run(eng, b, *i, v, want[j], profile) {
+                    Some(true) => res.count("findings_confirmed_by_fresh_compiler"),
+                    Some(false) => {
+                        res.count("not_reproduced_with_fresh_compiler");
+                        res.inconclusive(format!("run-time finding not reproduced by a fresh compiler instance, not reported: {} :: {}", obs.short(), matrix_text(m).chars().take(200).collect::<String>()));
+                        continue;
+                    }
+                    None => {
+                        res.count("fresh_compiler_recheck_failed");
+                        res.inconclusive("run-time finding could not be re-checked with a fresh compiler instance, not reported");
+                        continue;
+                    }
+                }
+            }
+            res.violation(
+                format!("run-time-arm-is-not-the-first-matching-arm:{class}"),
+                format!("[{}] `{}` must select arm {} `{}`; observed {} :: {}", profile.name(), print_value(v, &m.ty, &b.decls), want[j], print_pat(&m.arms[want[j]]), obs.short(), matrix_text(m)),
+                r,
+            );
+        }
+        for (i, seen) in arms_seen {
+            if seen.len() >= 2 {
+                res.count("matrices_run_selecting_several_arms");
+                res.note_nontrivial(matrix_hash(&b.fns[i], &b.decls));
+            }
+        }
+    }
+}
+
+fn batch_at(seed: u64, shard: u64, index: u64) -> (Batch, StdRng) {
+    let mut rng = rng_for(seed ^ 0x0c14, shard, index);
+    let n = rng.gen_range(16..=26);
+    let b = gen_batch(&mut rng, n);
+    (b, rng)
+}
+
+fn shard(ctx: &ShardCtx) -> ShardResult {
+    let mut res = ShardResult::default();
+    let mut eng = Engines2::new(&ctx.work());
+    // std once for the front end + debug builds (own handler) and once for release builds
+    let warm_release = eng.am.compile("c14warm", "script;\n\nfn main() -> u64 {\n    0u64\n}\n", Profile::Release).map(|c| eng.am.remove(&c));
+    if let Err(e) = eng.checker.warm().and(warm_release) {
+        res.harness_fault = Some(format!("std does not compile: {e}"));
+        return res;
+    }
+    let mut i = ctx.first_index;
+    // the time budget bounds the exploration, it is not a verdict: on an overloaded machine the
+    // compilation of std alone can exceed it, so a minimum number of batches is always run
+    let warm_end = std::time::Instant::now();
+    while ctx.time_left() || warm_end.elapsed().as_secs() < 20 || (ctx.first_index == 0 && i < MIN_BATCHES) {
+        let (b, mut rng) = batch_at(ctx.seed, ctx.shard, i);
+        let (src, _) = diag_source(&b);
+        journal_current(ctx, &src);
+        ctx.begin_case(i, &src, &res);
+        let replay = json!({"seed": ctx.seed, "shard": ctx.shard, "index": i});
+        run_batch(&mut eng, &b, &mut rng, &mut res, &replay, None);
+        ctx.end_case();
+        i += 1;
+    }
+    res
+}
+
+fn replay(case: &Value) -> ShardResult {
+    let mut res = ShardResult::default();
+    let (Some(seed), Some(shard), Some(index)) = (case.get("seed").and_then(|v| v.as_u64()), case.get("shard").and_then(|v| v.as_u64()), case.get("index").and_then(|v| v.as_u64())) else {
+        res.harness_fault = Some("replay file lacks seed/shard/index".into());
+        return res;
+    };
+    let (b, mut rng) = batch_at(seed, shard, index);
+    let only = case.get("fn").and_then(|v| v.as_u64()).map(|v| v as usize);
+    if let (Some(f), Some(text)) = (only, case.get("matrix").and_then(|v| v.as_str())) {
+        if b.fns.get(f).map(matrix_text).as_deref() != Some(text) {
+            res.harness_fault = Some("the generator no longer reproduces the recorded matrix (see `matrix` in the replay file)".into());
+            return res;
+        }
+    }
+    let work = work_dir("C14").join("replay");
+    clean_dir(&work);
+    let mut eng = Engines2::new(&work);
+    run_batch(&mut eng, &b, &mut rng, &mut res, case, only);
+    res
+}
+
+// ------------------------------------------------------------------------------------------
+// Tools: `swverif c14-diag <file.sw>` prints the structured diagnostics of a script;
+// `swverif c14-show <seed> <shard> <index>` prints a generated batch;
+// `swverif c14-selftest` feeds the oracle tampered observations.
+
+fn subcommand(args: &[String]) -> Option<i32> {
+    match args.first().map(|s| s.as_str()) {
+        Some("c14-diag") => {
+            let src = std::fs::read_to_string(&args[1]).expect("read source");
+            let mut chk = Checker::new(&work_dir("C14_diag"));
+            match chk.check(&src) {
+                Ok(d) => {
+                    for e in &d.errors {
+                        let lc = e.span().start_line_col_one_index();
+                        match e {
+                            CompileError::MatchExpressionNonExhaustive { missing_patterns, .. } => println!("line {}: NON-EXHAUSTIVE missing: {missing_patterns}", lc.line),
+                            other => println!("line {}: ERROR {other}", lc.line),
+                        }
+                    }
+                    for w in &d.warnings {
+                        if let Warning::MatchExpressionUnreachableArm { unreachable_arm, is_last_arm, is_catch_all_arm, .. } = &w.warning_content {
+                            println!("line {}: UNREACHABLE ARM `{}` last={is_last_arm} catch_all={is_catch_all_arm}", unreachable_arm.start_line_col_one_index().line, unreachable_arm.as_str());
+                        }
+                    }
+                    println!("{} errors, {} warnings", d.errors.len(), d.warnings.len());
+                    Some(0)
+                }
+                Err(e) => {
+                    println!("front end failed: {e}");
+                    Some(1)
+                }
+            }
+        }
+        Some("c14-time") => {
+            // time the front end on every `fn m<i>` of a batch file separately
+            let src = std::fs::read_to_string(&args[1]).expect("read source");
+            let mut chk = Checker::new(&work_dir("C14_diag"));
+            chk.warm().expect("std");
+            let first_fn = src.find("\nfn m").map(|i| i + 1).unwrap_or(src.len());
+            let header = &src[..first_fn];
+            let mut rest = &src[first_fn..];
+            while let Some(end) = rest[1..].find("\nfn m").map(|i| i + 2) {
+                let f = &rest[..end];
+                rest = &rest[end..];
+                let one = format!("{header}{f}\nfn main() -> u64 {{\n    0u64\n}}\n");
+                let t = std::time::Instant::now();
+                let r = chk.check(&one);
+                let ms = t.elapsed().as_millis();
+                println!("{ms:>7} ms  errors={:?}  {}", r.as_ref().map(|d| d.errors.len()).ok(), f.lines().next().unwrap_or(""));
+                if ms > 1000 {
+                    println!("{f}");
+                }
+            }
+            Some(0)
+        }
+        Some("c14-show") => {
+            let n = |k: usize, d: u64| args.get(k).and_then(|s| s.parse().ok()).unwrap_or(d);
+            let (b, _) = batch_at(n(1, 1), n(2, 0), n(3, 0));
+            println!("{}", diag_source(&b).0);
+            Some(0)
+        }
+        Some("c14-selftest") => Some(selftest()),
+        Some("c14-confirmtest") => {
+            // the fresh-compiler confirmation must reproduce real findings: exercised with the
+            // findings of the known classes of the unchanged tree
+            let work = work_dir("C14_confirmtest");
+            clean_dir(&work);
+            let mut eng = Engines2::new(&work);
+            let (mut yes, mut no, mut undecided) = (0, 0, 0);
+            let (mut ryes, mut rno, mut rund) = (0, 0, 0);
+            for index in 0..6u64 {
+                let (b, _) = batch_at(99, 0, index);
+                let (src, lines) = diag_source(&b);
+                let Ok(diags) = eng.checker.check(&src) else { continue };
+                let Ok(fd) = attribute(&diags, &lines, b.fns.len()) else { continue };
+                for (i, m) in b.fns.iter().enumerate() {
+                    if !fd[i].other_errors.is_empty() {
+                        continue;
+                    }
+                    let ex = expected(m, &b.decls);
+                    let mut scratch = ShardResult::default();
+                    let kinds: BTreeSet<String> = judge_diagnostics(m, &b.decls, &ex, &fd[i], &mut scratch).into_iter().map(|f| f.kind).collect();
+                    for k in kinds {
+                        match confirm_diag(&mut eng, &b, i, &k) {
+                            Some(true) => yes += 1,
+                            Some(false) => {
+                                no += 1;
+                                println!("NOT reproduced: {k} :: {}", matrix_text(m));
+                            }
+                            None => undecided += 1,
+                        }
+                    }
+                    // run-time: arms with an irrefutable alternative in an or-pattern
+                    if fd[i].non_exhaustive.is_none() && ex.uncovered == 0 {
+                        for (v, f) in ex.vals.iter().zip(&ex.first) {
+                            let a = f.unwrap();
+                            if has_or_with_irrefutable_alternative(&m.arms[a]) && !m.arms[a..].iter().skip(1).all(|_| false) {
+                                for profile in Profile::BOTH {
+                                    match confirm_run(&mut eng, &b, i, v, a, profile) {
+                                        Some(true) => ryes += 1,
+                                        Some(false) => rno += 1,
+                                        None => rund += 1,
+                                    }
+                                }
+                                break;
+                            }
+                        }
+                    }
+                }
+            }
+            println!("diagnostic findings: reproduced {yes}, not reproduced {no}, undecided {undecided}");
+            println!("run-time probes on arms with the known or-pattern defect: differs {ryes}, agrees {rno}, undecided {rund}");
+            Some(if yes > 10 && no == 0 && ryes > 0 { 0 } else { 1 })
+        }
+        _ => None,
+    }
+}
+
+/// Synthetic observations: the oracle must flag every tampered diagnosis and must accept the
+/// diagnosis derived from the brute force itself.
+fn selftest() -> i32 {
+    let mut failures = 0;
+    let mut tried: BTreeMap<&'static str, (u32, u32)> = BTreeMap::new();
+    let mut note = |name: &'static str, flagged: bool, failures: &mut i32, what: &str| {
+        let e = tried.entry(name).or_insert((0, 0));
+        e.0 += 1;
+        if flagged {
+            e.1 += 1;
+        } else {
+            *failures += 1;
+            println!("selftest: {name} NOT flagged: {what}");
+        }
+    };
+    let mut n = 0;
+    for index in 0..40u64 {
+        let (b, mut rng) = batch_at(777, 0, index);
+        for m in &b.fns {
+            let ex = expected(m, &b.decls);
+            // the truthful diagnosis: an uncovered value printed as a witness, exact reachability
+            let witness_of = |v: &MV| -> String {
+                fn w(v: &MV, t: &MT, d: &Decls, pools: &Pools) -> String {
+                    match (v, t) {
+                        (MV::Bool(b), _) => b.to_string(),
+                        (MV::Int(x), MT::Int(bits)) => {
+                            let (lo, hi) = pools.class_of(*bits, *x);
+                            if lo == hi {
+                                lo.to_string()
+                            } else {
+                                format!("[{}...{}]", if lo == 0 { "MIN".to_string() } else { lo.to_string() }, if hi == int_max(*bits) { "MAX".to_string() } else { hi.to_string() })
+                            }
+                        }
+                        (MV::Enum(k, None), MT::Enum(e)) => format!("{}::V{k}(_)", enum_name(*e)),
+                        (MV::Enum(k, Some(p)), MT::Enum(e)) => format!("{}::V{k}({})", enum_name(*e), w(p, d.enums[*e][*k].as_ref().unwrap(), d, pools)),
+                        (MV::Struct(vs), MT::Struct(s)) => format!("{} {{ {} }}", struct_name(*s), vs.iter().enumerate().map(|(k, v)| format!("f{k}: {}", w(v, &d.structs[*s][k], d, pools))).collect::<Vec<_>>().join(", ")),
+                        (MV::Tuple(vs), MT::Tuple(ts)) => format!("({})", vs.iter().zip(ts).map(|(v, t)| w(v, t, d, pools)).collect::<Vec<_>>().join(", ")),
+                        _ => unreachable!(),
+                    }
+                }
+                w(v, &m.ty, &b.decls, &m.pools)
+            };
+            let uncovered: Vec<&MV> = ex.vals.iter().zip(&ex.first).filter(|(_, f)| f.is_none()).map(|(v, _)| v).collect();
+            let covered: Vec<&MV> = ex.vals.iter().zip(&ex.first).filter(|(_, f)| f.is_some()).map(|(v, _)| v).collect();
+            let truthful = FnDiag {
+                non_exhaustive: uncovered.first().map(|v| format!("`{}`", witness_of(v))),
+                flagged: (0..m.arms.len()).filter(|i| !ex.reachable[*i]).collect(),
+                other_errors: vec![],
+            };
+            let mut r = ShardResult::default();
+            let f = judge_diagnostics(m, &b.decls, &ex, &truthful, &mut r);
+            if !f.is_empty() {
+                failures += 1;
+                println!("selftest: truthful diagnosis flagged: {} {} :: {}", f[0].kind, f[0].desc, matrix_text(m));
+                continue;
+            }
+            n += 1;
+            let flagged = |d: &FnDiag, kind: &str| {
+                let mut r = ShardResult::default();
+                judge_diagnostics(m, &b.decls, &ex, d, &mut r).iter().any(|f| f.kind.starts_with(kind))
+            };
+            if !uncovered.is_empty() {
+                let mut d = truthful.clone();
+                d.non_exhaustive = None;
+                note("accepted_but_uncovered", flagged(&d, "accepted-although"), &mut failures, &matrix_text(m));
+                if let Some(c) = covered.first() {
+                    let mut d = truthful.clone();
+                    d.non_exhaustive = Some(format!("`{}`, `{}`", witness_of(uncovered[0]), witness_of(c)));
+                    note("witness_covered", flagged(&d, "witness-is-covered"), &mut failures, &matrix_text(m));
+                }
+                let mut d = truthful.clone();
+                d.non_exhaustive = Some("`_`".into());
+                if !covered.is_empty() {
+                    note("witness_wildcard_covered", flagged(&d, "witness-is-covered"), &mut failures, &matrix_text(m));
+                }
+                let mut d = truthful.clone();
+                d.non_exhaustive = Some("`Nope::V0(_)`, `(true, true, true, true, true)`".into());
+                note("witness_ill_typed", flagged(&d, "witness-is-not-a-pattern-of"), &mut failures, &matrix_text(m));
+            } else {
+                let mut d = truthful.clone();
+                d.non_exhaustive = Some("`_`".into());
+                note("rejected_but_exhaustive", flagged(&d, "rejected-although"), &mut failures, &matrix_text(m));
+            }
+            if let Some(i) = (0..m.arms.len()).find(|i| ex.reachable[*i]) {
+                let mut d = truthful.clone();
+                d.flagged.insert(i);
+                note("reachable_flagged", flagged(&d, "reachable-arm-flagged"), &mut failures, &matrix_text(m));
+            }
+            if let Some(i) = (0..m.arms.len()).find(|i| !ex.reachable[*i]) {
+                let mut d = truthful.clone();
+                d.flagged.remove(&i);
+                note("unreachable_not_flagged", flagged(&d, "unreachable-arm-not-flagged"), &mut failures, &matrix_text(m));
+            }
+            // off-by-one range witness: extend an uncovered gap over the neighbouring literal
+            for v in &uncovered {
+                if let (MV::Int(x), MT::Int(bits)) = (v, &m.ty) {
+                    let (lo, hi) = m.pools.class_of(*bits, *x);
+                    if hi < int_max(*bits) && m.pools.0[bits].contains(&(hi + 1)) && first_match(&m.arms, &MV::Int(hi + 1)).is_some() {
+                        let mut d = truthful.clone();
+                        d.non_exhaustive = Some(format!("`[{lo}...{}]`", hi + 1));
+                        note("range_witness_off_by_one", flagged(&d, "witness-is-covered"), &mut failures, &matrix_text(m));
+                    }
+                }
+            }
+            let _ = &mut rng;
+        }
+    }
+    // witness grammar round trips
+    for (text, ok) in [
+        ("_", true),
+        ("[MIN...3]", true),
+        ("[5...MAX]", true),
+        ("En0::V1((true, [2...7]))", true),
+        ("St0 { f0: true, f1: _ }", true),
+        ("St0 { f0: true, ... }", true),
+        ("(true, false) | (false, _)", true),
+        ("(true, ", false),
+        ("[3..4]", false),
+    ] {
+        if parse_witness(text).is_ok() != ok {
+            failures += 1;
+            println!("selftest: witness grammar: `{text}` parsed = {}", !ok);
+        }
+    }
+    for (k, (t, hit)) in &tried {
+        println!("selftest: {k}: flagged {hit} of {t}");
+    }
+    println!("selftest: {n} matrices, {failures} failures");
+    if failures == 0 && n > 100 && tried.len() >= 8 {
+        0
+    } else {
+        1
+    }
+}
